@@ -281,7 +281,7 @@ func junkFor(rng *vh.Rand, pkt []byte, other *session) []simnet.Delivery {
 }
 
 func genC03(r *vh.Runner) {
-	n := r.Pick(160, 12000)
+	n := r.Pick(160, 36000)
 	for i := 0; i < n; i++ {
 		r.Case(fmt.Sprintf("schedule/%d", i), map[string]any{"schedule": i}, func(c *vh.Case) {
 			c.Bubble(func() { scheduleRun(r, c, i) })
@@ -299,7 +299,7 @@ func genC03(r *vh.Runner) {
 			c.Bubble(func() { writersRun(r, c, i) })
 		})
 	}
-	nl := r.Pick(32, 600)
+	nl := r.Pick(32, 3000)
 	for i := 0; i < nl; i++ {
 		r.Case(fmt.Sprintf("long-replay/%d", i), map[string]any{"rep": i}, func(c *vh.Case) {
 			c.Bubble(func() { replayRun(r, c, i) })
@@ -790,7 +790,7 @@ var _ = io.EOF
 var _ = os.ErrDeadlineExceeded
 
 func genC15(r *vh.Runner) {
-	n := r.Pick(120, 15000)
+	n := r.Pick(120, 30000)
 	for i := 0; i < n; i++ {
 		r.Case(fmt.Sprintf("roam/%d", i), map[string]any{"history": i}, func(c *vh.Case) {
 			c.Bubble(func() { roamRun(r, c, i) })
